@@ -156,8 +156,13 @@ def eq_angle(a, b):
 # ---- the catalog ------------------------------------------------------------------------------------------------------------------------
 # entry: id -> dict(obj=<object kind>, attr, good=[specs] | callable(r)->spec, bad=[specs], eq, none=None|"none"|<default>, group)
 
+# documented defaults of the EMU-valued properties (text-frame and cell insets of either side): assigning a value that EQUALS some default
+# explicitly is a boundary of its own (a setter that "does not write the default" must know which default belongs to which side)
+EMU_DEFAULTS = (91440, 45720)
+
+
 def _emus(r, lo=0, hi=9144000):
-    return I(r.choice([v for v in (lo, hi, lo + 1, hi - 1, 914400, 12700, r.randint(lo, hi)) if lo <= v <= hi]))
+    return I(r.choice([v for v in (lo, hi, lo + 1, hi - 1, 914400, 12700, r.choice(EMU_DEFAULTS), r.randint(lo, hi)) if lo <= v <= hi]))
 
 
 def _fracs(r, lo=0.0, hi=1.0):
@@ -224,7 +229,7 @@ def build_catalog():
           [S("ACCENT_1"), I(9999), E("dml", "MSO_THEME_COLOR", "NOT_THEME_COLOR")], group="color")
     entry("color.brightness", "color", "brightness", lambda r: _fracs(r, -1.0, 1.0), [F(1.01), F(-1.5), S("x")], eq_tol(FRAC_Q), group="color")
     # gradient / pattern
-    entry("grad.gradient_angle", "grad", "gradient_angle", lambda r: F(r.choice([0.0, 45.0, 90.5, 359.0, 180.0, 0.00002, round(r.uniform(0, 359.99), 4)])), [S("x")], eq_angle)
+    entry("grad.gradient_angle", "grad", "gradient_angle", lambda r: F(r.choice([0.0, 45.0, 90.5, 359.0, 180.0, 0.00002, 0.000002, 0.000008, 359.999996, round(r.uniform(0, 359.99), 4)])), [S("x")], eq_angle)
     entry("gradstop.position", "gradstop", "position", lambda r: _fracs(r, 0.0, 1.0), [F(1.1), F(-0.1), S("x")], eq_tol(FRAC_Q))
     entry("patt.pattern", "patt", "pattern", [E("dml", "MSO_PATTERN", n) for n in ("CROSS", "DIVOT", "PERCENT_50", "WAVE", "ZIG_ZAG", "PERCENT_5")], [S("cross")])
     # line
